@@ -19,10 +19,13 @@ RULE = ("1-3 parameters (bool/int/float/str with every width/sign suffix: [u]int
         "but never assigned, a float-form literal (point or exponent, integral or not, scalar or array element) for an int "
         "parameter. Further streams: (clauses) the modifications sit inside `@case true/false ... [@else ...] @end` "
         "clauses (which may also contain first definitions/declarations, optionally protected by !constant) after 0-150 "
-        "earlier clause keywords, followed by assignments after the clauses, optionally cut into a chain of parses on one environment, judged "
+        "earlier clause keywords (half of the conditions compare two parameters written in different units of one dimension, "
+        "`@case (\"{?a} < {?b}\")`, which must leave both untouched), followed by assignments after the clauses, optionally cut into a chain of parses on one environment, judged "
         "against the specification on the effective lines (selected bodies count at the clause's indentation); "
         "(chain-of-parses) programs cut into 2-3 texts parsed with DIP(env), model and specification evaluated on every "
-        "prefix. A returned environment that cannot be read counts as 'envbroken', not as a failed parse. non-trivial = at least two modifications of one parameter or a unit conversion or an "
+        "prefix; (imports) a group with assignment chains is imported locally (`{?g.*}` / `{?g.a}`) below a fresh group, then "
+        "originals and copies are assigned independently: an import line counts as the typed lines it stands for (type, "
+        "width/sign, dimension, unit, CURRENT value or declaration, !constant carried over). A returned environment that cannot be read counts as 'envbroken', not as a failed parse. non-trivial = at least two modifications of one parameter or a unit conversion or an "
         "injected error; distinct = the text")
 ASSUMPTIONS = H.ASSUMPTIONS + [
     "a numeric definition without unit is dimensionless: a later assignment with a unit is an assignment in another "
@@ -34,6 +37,10 @@ ASSUMPTIONS = H.ASSUMPTIONS + [
     "clause conditions are the literals true/false, every clause is closed by @end at the indentation of its @case and "
     "its body is one level of lines; what a clause means in general is the subject of C15 and not part of the Lean model "
     "here (the model is not asked in the clause stream)",
+    "imports are local and onto fresh paths (imports onto existing nodes, remote sources and references in values are "
+    "C17's subject); imported int parameters carry no unit (an int copy is written back with int()); what an import "
+    "means is taken from the documentation, the Lean model does not describe it and is not asked in that stream",
+    "clause conditions that compare parameters use < or > on two scalar parameters of the same type with different exact values",
     "in a chain of parses every DIP object is kept alive: DIP names its sources by id(self), a reused id collides",
     "unit conversion itself (magnitudes, dimension test) is the subject of C04 and enters as a parameter read from the "
     "live registry; an int parameter converted into its unit is compared numerically (the code stores a float)",
@@ -496,13 +503,25 @@ def gen_clause_program(rng):
     cuts = []
     feats = set()
     params, state, used = [], {}, set()
-    for _ in range(rng.choice([1, 1, 2, 3])):
-        nm = rng.choice(["a", "b", "size", "flag", "name", "n", "t0"])
+    plan = [None] * rng.choice([1, 1, 2, 3])
+    if rng.random() < 0.5:
+        # two scalar parameters of one type in different units of one dimension (compared by a clause condition below)
+        fam = rng.choice(sorted(H.LIN_UNITS))
+        ty = rng.choice(["float", "float", "int"])
+        plan = [(ty, fam), (ty, fam)] + plan[:1]
+    for spec_ in plan:
+        nm = rng.choice(["a", "b", "size", "flag", "name", "n", "t0", "width", "limit"])
         if nm in used:
             continue
         used.add(nm)
         p = Param(rng, groups + [nm])
         p.leaf = nm
+        if spec_ is not None:
+            p.ty, p.fam = spec_
+            p.kw, p.prec, p.uns = H.gen_type(rng, p.ty)
+            p.shape, p.dims, p.dims_text = None, None, ""
+            p.unit = rng.choice(H.LIN_UNITS[p.fam])
+            p.declared = False
         if staged:
             p.declared = False
         params.append(p)
@@ -662,7 +681,23 @@ def gen_clause_program(rng):
     for _ in range(rng.choice([1, 1, 2, 3])):
         w = rng.randint(1, 5)
         sel = rng.random() < 0.6
-        text.append(" " * ind + "@case " + ("true" if sel else "false") + H.comment(rng, 0.15))
+        cond = "true" if sel else "false"
+        if rng.random() < 0.5:
+            # a comparison of two parameters written in different units of one dimension: it must not disturb them
+            cands = [q for q in params if q.ty in ("float", "int") and q.shape is None
+                     and isinstance(state.get(q.leaf), (int, Fraction)) and not isinstance(state.get(q.leaf), bool)]
+            pairs = [(x, y) for x in cands for y in cands if x is not y and x.fam == y.fam and x.ty == y.ty]
+            if pairs:
+                x, y = rng.choice(pairs)
+                yv = conv_exact(x.unit, y.unit, state[y.leaf]) if (x.unit and y.unit) else state[y.leaf]
+                if yv != "err" and yv != state[x.leaf]:
+                    op = rng.choice(["<", ">"])
+                    sel = (state[x.leaf] < yv) if op == "<" else (state[x.leaf] > yv)
+                    cond = '("{?%s} %s {?%s}")' % (".".join(x.path), op, ".".join(y.path))
+                    feats.add("clause-condition-compares-parameters")
+                    if x.unit != y.unit:
+                        feats.add("clause-condition-compares-different-units")
+        text.append(" " * ind + "@case " + cond + H.comment(rng, 0.15 if cond in ("true", "false") else 0.0))
         lines.append([ind, "", ["skip"]])
         body(sel, w)
         if rng.random() < 0.4:
@@ -699,6 +734,162 @@ def gen_clause_program(rng):
     if len(stages) > 1:
         feats.add("chain-of-parses")
     return stages, expected, feats
+
+
+def gen_import_program(rng):
+    """A group of definitions/declarations with assignment chains, then a local import of the group (`{?g.*}`) or of
+    single nodes (`{?g.a}`) below a fresh group, then assignments to originals and copies.  An import line counts as
+    the typed lines it stands for: every selected parameter with its type, width/sign, dimension, unit and its CURRENT
+    value (a declaration when it has none), `!constant` carried over.  Returns (text, abstract lines, expected, features)."""
+    text, lines = [H.UNIT_PREAMBLE], [[0, "", ["skip"]]]
+    feats = set()
+    g, h = rng.sample(COMP, 2)
+    w = rng.randint(1, 5)
+    text.append(g)
+    lines.append([0, g, ["group"]])
+    params, state, frozen, order = [], {}, set(), []
+    error = [False]
+    for nm in rng.sample(["a", "b", "size", "flag", "name", "n", "t0"], rng.choice([1, 2, 2, 3])):
+        p = Param(rng, [g, nm])
+        p.leaf = nm
+        if p.ty == "int":
+            p.unit, p.fam = None, None      # an int copy is written back with int(): keep integer values integral
+        params.append(p)
+        key = g + "." + nm
+        order.append(key)
+        head = H.sp(rng) + p.kw + p.dims_text
+        if p.declared:
+            if p.unit:
+                head += H.sp(rng) + p.unit
+            text.append(" " * w + nm + head)
+            lines.append([w, nm, ["decl", p.ty, p.prec, p.uns, p.dims, p.unit]])
+            state[key] = "undef"
+        else:
+            lit, val = gen_value(rng, p.ty, p.shape)
+            head += rng.choice([" = ", "=", "  =  "]) + lit + ((H.sp(rng) + p.unit) if p.unit else "")
+            text.append(" " * w + nm + head + H.comment(rng, 0.2))
+            lines.append([w, nm, ["defn", p.ty, p.prec, p.uns, p.dims, p.unit, H.to_json_val(val)]])
+            state[key] = val
+            if rng.random() < 0.12:
+                text.append(" " * (w + 2) + "!constant")
+                lines.append([w + 2, "", ["const"]])
+                frozen.add(key)
+
+    def assign(key, p):
+        lit, val = gen_value(rng, p.ty, p.shape)
+        typed = rng.random() < 0.3
+        unit = None
+        if p.unit and val is not None and rng.random() < 0.7:
+            unit = rng.choice(H.LIN_UNITS[p.fam])
+        mprec = muns = None
+        if typed:
+            kw, mprec, muns = H.gen_type(rng, p.ty)
+            head = H.sp(rng) + kw + p.dims_text + rng.choice([" = ", "="]) + lit
+        else:
+            head = rng.choice([" = ", " =", "  =  "]) + lit
+        if unit:
+            head += H.sp(rng) + unit
+        text.append(key + head + H.comment(rng, 0.2))
+        lines.append([0, key, ["assign", p.ty if typed else None, unit, H.to_json_val(val), mprec, muns, p.dims]])
+        if key in frozen:
+            error[0] = True
+            feats.add("assignment-to-constant")
+        nv = conv_exact(p.unit, unit, val)
+        if nv == "err":
+            error[0] = True
+        else:
+            state[key] = nv
+
+    for _ in range(rng.choice([0, 1, 2, 3, 4])):
+        p = rng.choice(params)
+        assign(g + "." + p.leaf, p)
+        feats.add("reassigned-before-import")
+    # the import
+    text.append(h + H.comment(rng, 0.2, tight_ok=False))
+    lines.append([0, h, ["group"]])
+    w2 = rng.randint(1, 5)
+    if rng.random() < 0.5:
+        selected = list(params)
+        text.append(" " * w2 + "{?%s.*}" % g)
+        lines.append([w2, "", ["skip"]])
+        feats.add("import-group")
+    else:
+        selected = rng.sample(params, rng.choice([1, min(2, len(params))]))
+        for p in selected:
+            text.append(" " * w2 + "{?%s.%s}" % (g, p.leaf))
+            lines.append([w2, "", ["skip"]])
+        feats.add("import-single-node")
+    copies = []
+    for p in selected:
+        src, key = g + "." + p.leaf, h + "." + p.leaf
+        cur = state[src]
+        if cur == "undef":
+            lines.append([w2, p.leaf, ["decl", p.ty, p.prec, p.uns, p.dims, p.unit]])
+            feats.add("import-of-declared-node")
+        else:
+            lines.append([w2, p.leaf, ["defn", p.ty, p.prec, p.uns, p.dims, p.unit, H.to_json_val(cur)]])
+        text.append("")           # keeps text and abstract lines parallel
+        if src in frozen:
+            lines.append([w2, "", ["const"]])
+            text.append("")
+            frozen.add(key)
+        state[key] = cur
+        order.append(key)
+        copies.append((key, p))
+    # afterwards: originals and copies go their own ways
+    for _ in range(rng.choice([0, 1, 2, 3])):
+        if rng.random() < 0.5:
+            key, p = rng.choice(copies)
+            feats.add("copy-assigned-after-import")
+        else:
+            p = rng.choice(params)
+            key = g + "." + p.leaf
+        assign(key, p)
+    # declared parameters that are not constant get their value with probability 0.8
+    for key in list(order):
+        if state[key] == "undef" and key not in frozen and rng.random() < 0.8:
+            p = next(q for q in params if key.endswith("." + q.leaf))
+            assign(key, p)
+    if any(state[k] == "undef" for k in order):
+        error[0] = True
+        feats.add("declared-never-effectively-assigned")
+    if error[0]:
+        expected = "err"
+    else:
+        expected = []
+        for key in order:
+            p = next(q for q in params if key.endswith("." + q.leaf))
+            expected.append([key, p.ty, p.prec, p.uns, p.unit, state[key]])
+    return "\n".join(text), lines, expected, feats
+
+
+def import_stream(ctx, n):
+    """real code vs the Lean specification on the effective lines of programs with local imports (the Lean model
+    does not describe imports — C17 — and is not asked)"""
+    progs = [gen_import_program(ctx.rng) for _ in range(n)]
+    reqs = [{"lines": [[l[0], l[1], H.driver_payload(l[2])] for l in lines],
+             "units": H.unit_rows(H.units_in(lines) | {"m"}, H.UNIT_PREAMBLE)} for _, lines, _, _ in progs]
+    res = ctx.driver.ask_many(reqs)
+    for (text, lines, expected, feats), r in zip(progs, res):
+        impl = H.impl_run(text)
+        ctx.count("stream.imports")
+        for f in feats:
+            ctx.count("feature." + f)
+        ctx.count("impl.err" if isinstance(impl, str) else "impl.ok")
+        ctx.case(text, True, None)
+        replay = {"stream": "imports", "text": text}
+        spec = H.decode_result(r["ok"]["spec"]) if "ok" in r else "driver-error"
+        if spec in ("driver-error", "unsupported"):
+            ctx.disagreement("imports", replay, "specification not available: %s" % (r,))
+            continue
+        if not H.res_eq_exact(expected, spec):
+            ctx.disagreement("imports:spec-vs-generator", replay,
+                             "Lean spec %s vs generator %s" % (H.short(H.jsonable(spec)), H.short(H.jsonable(expected))))
+        elif not H.res_eq(impl, spec):
+            c = {"stream": "imports", "features": feats}
+            ctx.violation(signature(c, impl, spec) + ":import",
+                          "C14: %s | text=%r" % (H.first_diff(impl, spec), text[:400]),
+                          dict(replay, impl=H.jsonable(impl), spec=H.jsonable(spec)))
 
 
 def impl_run_staged(stage_texts):
@@ -849,6 +1040,7 @@ def correspond(ctx):
     H.flush(ctx, cases, prop="C14", sig_fn=signature)
     clause_stream(ctx, 1200 if thorough else 300)
     chain_of_parses_stream(ctx, 800 if thorough else 200)
+    import_stream(ctx, 1000 if thorough else 250)
 
 
 def replay(ctx, payload):
